@@ -64,6 +64,10 @@ structure PFields where
   /-- `tags map[string]interface{}`, persisted by the parent strategy with ctx.SetMap("tags", …) after the
       other fields -/
   tags : List TagEntry := []
+  /-- `groups []string`: ids of entities of the second root store Q ("groups"), persisted by the parent
+      strategy with ctx.SetLinkedIds("groups", …) (link collection things.groups ↔ groups.members) after
+      the other fields -/
+  links : List String := []
   deriving DecidableEq, Repr
 
 structure Ent where
@@ -185,6 +189,8 @@ inductive Err
   | parse | load | persist
   /-- TypedBucket.setMarshaled: "unsupported type … in map" -/
   | unsupported
+  /-- LinkedSetSymbol.AddLink: the link target has no entity bucket (RecordNotFoundError) -/
+  | linkMissing
   deriving DecidableEq, Repr
 
 inductive Res | ok | err (e : Err)
@@ -411,6 +417,14 @@ inductive Fault
   | persist (σ : StoreId) (n : Nat)
   deriving DecidableEq, Repr
 
+/-- the entities of the second root store Q: created when the database is set up, never touched by
+    the modelled operations (so Q.members is a function of the parent entities' links) -/
+def qIds : List String := ["q1", "q2"]
+
+/-- LinkCollection.AddLinks / RemoveLinks / SetLinks called by the transaction function itself -/
+inductive LinkOp | add | remove | set
+  deriving DecidableEq, Repr
+
 inductive Step
   | op (o : Op) (fault : Fault) (swallow : Bool)
   | fail (tag : Nat)
@@ -418,6 +432,9 @@ inductive Step
       flag lives in the caller's closure, not in the database): a Db.Batch whose first attempt fails this
       way succeeds when bbolt runs the function again -/
   | fail1 (tag : Nat)
+  /-- `parent.GetLinkCollection("groups").AddLinks / RemoveLinks / SetLinks(ctx.Tx(), id, targets…)`; the
+      caller hands its error on -/
+  | link (op : LinkOp) (id : String) (targets : List String)
   | addCommit (tag : Nat)
   | addPre (tag : Nat) (fails : Bool)
   /-- begin / end of a nested `db.Update(ctx, …)` whose context already has a transaction: the
@@ -453,6 +470,6 @@ def leStr (a b : String) : Bool := decide (a ≤ b)
 /-- a string list is stored as the key set of a bucket: sorted, duplicate-free -/
 def normRoles (rs : List String) : List String := (rs.mergeSort leStr).eraseDups
 
-def PFields.norm (f : PFields) : PFields := { f with roles := normRoles f.roles }
+def PFields.norm (f : PFields) : PFields := { f with roles := normRoles f.roles, links := normRoles f.links }
 
 end StorageModel.Tx
